@@ -1,87 +1,120 @@
 ------------------------------ MODULE DatTrace ------------------------------
 (* TV form of C15.  One trace = one credential case executed on the real code:                                   *)
-(*   Case, Create, DcLayout, DcFields, DcKeys, SpsdkParse, CheckDcSignature, CheckRotHash, Dac, Respond,          *)
-(*   DarLayout, DarFields, CheckResponseSignature, (Attempt | Tamper)*, Done                                      *)
-(* The harness drives SPSDK (the host) and the device twin (independent parser / verifier); every number it logs  *)
-(* is recomputed here from the case parameters, every crypto fact must be TRUE, every delivery attempt must get   *)
-(* the verdict of the acceptance automaton of DatTerms.                                                           *)
+(*   Case, then the steps of Order(class) - Create, DcLayout, DcFields, DcKeys, SpsdkParse, CheckDcSignature,    *)
+(*   CheckRotHash, Dac, Respond, DarLayout, DarFields, CheckResponseSignature [, Deliver] -,                     *)
+(*   then (Attempt | Tamper)*, Done.                                                                             *)
+(* The harness drives SPSDK (the host) and the device twin (independent parser / verifier); every number it logs *)
+(* is recomputed here from the case parameters, every crypto fact must be TRUE, every delivery attempt must get  *)
+(* the verdict of the acceptance automaton of DatTerms.                                                          *)
+(* A trace whose step X was rejected (and reported) is submitted again without X and with X in Case.skip, so     *)
+(* that the clauses after a known finding are still decided; a step may be absent only if it is listed there.    *)
 EXTENDS DatTerms, DatLayout, Json, IOUtils
 Traces == ndJsonDeserialize(IOEnv.TRACE_FILE)
-VARIABLES tid, l, st, cs, inp
+VARIABLES tid, l, pos, cs, inp
 T == Traces[tid].ev
 E == T[l]
-Is(e, s) == l <= Len(T) /\ E.e = e /\ st = s
-Adv(s) == l' = l + 1 /\ st' = s /\ UNCHANGED tid
-Keep == UNCHANGED <<cs, inp>>
 V == <<cs.ver[1], cs.ver[2]>>
 N == cs.nkeys
 C == cs.cls
+Order(cls) ==
+  IF cls = "ele2"
+    THEN <<"Create", "DcLayout", "DcFields", "DcKeys", "SpsdkParse", "CheckDcSignature", "Dac", "Respond", "DarLayout", "DarFields",
+           "CheckRotHash", "CheckResponseSignature", "Deliver">>
+    ELSE <<"Create", "DcLayout", "DcFields", "DcKeys", "SpsdkParse", "CheckDcSignature", "CheckRotHash", "Dac", "Respond", "DarLayout",
+           "DarFields", "CheckResponseSignature">>
+Ord == Order(C)
+Start == 0 - 1
+Refused == 99
+Finished == 100
+Is(e) == l <= Len(T) /\ E.e = e /\ pos >= 0 /\ pos < Len(Ord) /\ Ord[pos + 1] = e
+Adv == l' = l + 1 /\ pos' = pos + 1 /\ UNCHANGED tid
+Keep == UNCHANGED <<cs, inp>>
+Open == pos >= 0 /\ pos = Len(Ord)
 Zero16 == [i \in 1..16 |-> 0]
-TInit == /\ tid \in 1..Len(Traces) /\ l = 1 /\ st = "start" /\ cs = [cls |-> "none"] /\ inp = [none |-> 0] /\ TLCSet(tid, 1)
+Skippable == {"DcFields", "DcKeys", "SpsdkParse", "CheckDcSignature", "CheckRotHash", "Dac", "DarFields", "CheckResponseSignature", "Deliver"}
+TInit == /\ tid \in 1..Len(Traces) /\ l = 1 /\ pos = Start /\ cs = [cls |-> "none"] /\ inp = [none |-> 0] /\ TLCSet(tid, 1)
 
-TCase == /\ Is("Case", "start") /\ Len(E.ver) = 2 /\ ValidCase(E.cls, <<E.ver[1], E.ver[2]>>, E.nkeys, E.used)
-         /\ cs' = E /\ UNCHANGED inp /\ Adv("case")
+TCase == /\ l <= Len(T) /\ E.e = "Case" /\ pos = Start /\ Len(E.ver) = 2 /\ ValidCase(E.cls, <<E.ver[1], E.ver[2]>>, E.nkeys, E.used)
+         /\ {E.skip[i] : i \in 1..Len(E.skip)} \subseteq Skippable
+         /\ cs' = E /\ UNCHANGED <<inp, tid>> /\ l' = l + 1 /\ pos' = 0
+\* a step listed in Case.skip may be absent
+TSkip == /\ pos >= 0 /\ pos < Len(Ord) /\ \E i \in 1..Len(cs.skip) : cs.skip[i] = Ord[pos + 1]
+         /\ (l > Len(T) \/ E.e # Ord[pos + 1])
+         /\ pos' = pos + 1 /\ UNCHANGED <<tid, l>> /\ Keep
 \* SPSDK may refuse a configuration: then it has created nothing and the property says nothing
-TCreateRefused == Is("Create", "case") /\ ~E.ok /\ Keep /\ Adv("end")
-TCreate == /\ Is("Create", "case") /\ E.ok /\ E.len = DcLen(C, V, N)
+TCreateRefused == Is("Create") /\ ~E.ok /\ Keep /\ l' = l + 1 /\ pos' = Refused /\ UNCHANGED tid
+TCreate == /\ Is("Create") /\ E.ok /\ E.len = DcLen(C, V, N)
            /\ cs.wild = (E.in.uuid = Zero16)
-           /\ inp' = E.in /\ UNCHANGED cs /\ Adv("created")
+           /\ inp' = E.in /\ UNCHANGED cs /\ Adv
 \* independent walk of the exported bytes: field table = the table of the spec, nothing left over
-TDcLayout == /\ Is("DcLayout", "created") /\ E.fields = DcTable(C, V, N) /\ E.end = DcLen(C, V, N) /\ E.len = E.end
-             /\ Keep /\ Adv("layout")
+TDcLayout == /\ Is("DcLayout") /\ E.fields = DcTable(C, V, N) /\ E.end = DcLen(C, V, N) /\ E.len = E.end
+             /\ Keep /\ Adv
 \* "parses back to equal field values" - with the independent reader ...
-FieldsEqual(o) == /\ o.ver = cs.ver /\ o.socc = inp.socc /\ o.uuid = inp.uuid
-                  /\ o.socu = inp.socu /\ o.vu = inp.vu /\ o.beacon = inp.beacon
-                  /\ o.nkeys = N /\ (~(C = "classic" /\ IsRsa(V)) => o.used = cs.used)   \* an RSA credential has no index field
-TDcFields == Is("DcFields", "layout") /\ FieldsEqual(E.out) /\ E.flagsOk /\ Keep /\ Adv("fields")
+FieldsEqual(o) == /\ o.socc = inp.socc /\ o.uuid = inp.uuid /\ o.socu = inp.socu /\ o.beacon = inp.beacon
+                  /\ IF C = "ele2" THEN TRUE                                        \* an AHAB certificate has no version / vendor usage / RoT meta data
+                     ELSE /\ o.ver = cs.ver /\ o.vu = inp.vu /\ o.nkeys = N
+                          /\ (~(C = "classic" /\ IsRsa(V)) => o.used = cs.used)       \* an RSA credential has no index field
+TDcFields == Is("DcFields") /\ FieldsEqual(E.out) /\ E.flagsOk /\ Keep /\ Adv
 \* ... the embedded RoT key is the key the configuration names, the debug key is the configured one, every table entry
 \* is the hash of its key (facts computed by the twin from the key files)
-TDcKeys == /\ Is("DcKeys", "fields") /\ E.rotIdx = cs.used /\ E.dckOk /\ (RotHashDefined(V) => E.tableOk)
-           /\ Keep /\ Adv("keys")
+TDcKeys == /\ Is("DcKeys") /\ E.rotIdx = cs.used /\ E.dckOk /\ (RotHashDefined(V) \/ C = "ele2" => E.tableOk)
+           /\ Keep /\ Adv
 \* ... and with SPSDK's own parser
-TSpsdkParse == /\ Is("SpsdkParse", "keys") /\ ~cs.noparse /\ E.ok /\ FieldsEqual(E.out) /\ E.eq /\ E.reexport
-               /\ Keep /\ Adv("parsed")
+\* (ele2: SPSDK's == also compares how the uuid was spelled in the configuration; the property is about field values)
+TSpsdkParse == /\ Is("SpsdkParse") /\ E.ok /\ FieldsEqual(E.out) /\ (E.eq \/ C = "ele2") /\ E.reexport
+               /\ Keep /\ Adv
 \* the signature verifies under the named RoT key over ALL preceding fields
-\* (a trace marked noparse is the continuation of one whose SpsdkParse step was rejected: that step is absent here)
-TCheckDcSignature == /\ (Is("CheckDcSignature", "parsed") \/ (Is("CheckDcSignature", "keys") /\ cs.noparse))
+TCheckDcSignature == /\ Is("CheckDcSignature")
                      /\ E.from = 0 /\ E.to = DcSigAt(C, V, N) /\ E.sigAt = DcSigAt(C, V, N) /\ E.sigLen = SigLen(V) /\ E.ok
-                     /\ Keep /\ Adv("dcsig")
+                     /\ Keep /\ Adv
 \* RoT hash: from the credential bytes = reference construction from the keys = what the DC object reports = image tools
-TCheckRotHash == /\ Is("CheckRotHash", "dcsig")
-                 /\ (RotHashDefined(V) => /\ E.fromBytes = E.ref /\ E.dc = E.ref /\ E.tools \in {"n/a", E.ref})
-                 /\ Keep /\ Adv("rothash")
+\* (ele2: the SRK table travels in the response; the credential object has no RoT hash: dc = "n/a")
+TCheckRotHash == /\ Is("CheckRotHash")
+                 /\ (RotHashDefined(V) \/ C = "ele2" => /\ E.fromBytes = E.ref /\ E.tools \in {"n/a", E.ref}
+                                                        /\ (IF C = "ele2" THEN E.dc = "n/a" ELSE E.dc = E.ref))
+                 /\ Keep /\ Adv
 \* the challenge of the device (built by the twin) is read correctly by the host
-TDac == /\ Is("Dac", "rothash") /\ E.hl = DacHashLen(C, V, cs.sha256) /\ E.len = DacLen(E.hl)
-        /\ E.ok /\ E.chalOk /\ E.uuidOk /\ E.verOk /\ (RotHashDefined(V) => E.validate = "ok")
-        /\ Keep /\ Adv("dac")
-TRespondRefused == Is("Respond", "dac") /\ ~E.ok /\ Keep /\ Adv("end")
-TRespond == Is("Respond", "dac") /\ E.ok /\ Keep /\ Adv("responded")
-TDarLayout == /\ Is("DarLayout", "responded") /\ E.fields = DarTable(C, V, N) /\ E.end = DarLen(C, V, N) /\ E.len = E.end
-              /\ Keep /\ Adv("darlayout")
-\* embeds that credential and the authentication beacon (and, ECC, the DEVICE's uuid from the challenge)
-TDarFields == /\ Is("DarFields", "darlayout") /\ E.dcEq /\ E.beacon = E.beaconIn /\ (BindsUuid(V) => E.uuidIsDev)
-              /\ Keep /\ Adv("darfields")
+TDac == /\ Is("Dac") /\ E.hl = DacHashLen(IF C = "ele2" THEN "ele1" ELSE C, V, cs.sha256) /\ E.len = DacLen(E.hl)
+        /\ E.ok /\ E.chalOk /\ E.uuidOk /\ E.verOk /\ (RotHashDefined(V) \/ C = "ele2" => E.validate = "ok")
+        /\ Keep /\ Adv
+TRespondRefused == Is("Respond") /\ ~E.ok /\ Keep /\ l' = l + 1 /\ pos' = Refused /\ UNCHANGED tid
+TRespond == Is("Respond") /\ E.ok /\ Keep /\ Adv
+TDarLayout == /\ Is("DarLayout") /\ E.fields = DarTable(C, V, N) /\ E.end = DarLen(C, V, N) /\ E.len = E.end
+              /\ Keep /\ Adv
+\* embeds that credential and the authentication beacon (and, ECC, the DEVICE's uuid from the challenge; ele2: the challenge vector)
+TDarFields == /\ Is("DarFields") /\ E.dcEq /\ E.beacon = E.beaconIn
+              /\ (IF C = "ele2" THEN E.chalOk ELSE (BindsUuid(V) => E.uuidIsDev))
+              /\ Keep /\ Adv
 \* signed by the debug-credential key over credential, beacon, (ECC) device uuid, challenge vector
-TCheckResponseSignature == /\ Is("CheckResponseSignature", "darfields")
-                           /\ E.cover = RespCover(V) /\ E.lens = RespCoverLens(C, V, N) /\ E.key = "dck" /\ E.ok
-                           /\ Keep /\ Adv("open")
+\* (ele2: over the container from its header to the SRK table array, which holds beacon and challenge vector)
+TCheckResponseSignature ==
+  /\ Is("CheckResponseSignature") /\ E.key = "dck" /\ E.ok
+  /\ IF C = "ele2" THEN E.from = 0 /\ E.to = Msg2SigAt(V) /\ E.sigAt = Msg2SigAt(V) + 8 /\ E.sigLen = SigLen(V)
+     ELSE E.cover = RespCover(V) /\ E.lens = RespCoverLens(C, V, N)
+  /\ Keep /\ Adv
+\* ele2: the device twin accepts the honest response for its own challenge
+TDeliver == Is("Deliver") /\ E.verdict = "Accept" /\ Keep /\ Adv
 \* every substitution the intruder tries gets the verdict of the acceptance automaton
-TAttempt == /\ Is("Attempt", "open") /\ E.a.binds = BindsUuid(V)
+TAttempt == /\ l <= Len(T) /\ E.e = "Attempt" /\ Open /\ C # "ele2" /\ E.a.binds = BindsUuid(V)
             /\ E.a.c0 \in Creds /\ E.a.c \in Creds /\ {E.a.u0, E.a.u, E.a.d} \subseteq Devices /\ {E.a.ch0, E.a.ch} \subseteq Chals /\ E.a.b \in Beacons
             /\ E.verdict = AttemptVerdict(E.a, cs.wild)
-            /\ Keep /\ Adv("open")
+            /\ Keep /\ l' = l + 1 /\ UNCHANGED <<tid, pos>>
 \* single-bit corruption of the honest response: never accepted, and stopped by the check that covers the field
 DcNames == {DcTable(C, V, N)[i].n : i \in 1..Len(DcTable(C, V, N))}
-DarNames == {DarTable(C, V, N)[i].n : i \in 1..Len(DarTable(C, V, N))} \ {"dc"}
+DarNames == {DarTable(C, V, N)[i].n : i \in 1..Len(DarTable(C, V, N))} \ {"dc", "pad"}
+Rejections == {"Malformed", "CheckRotHash", "CheckDcSignature", "CheckResponseSignature"}
 TamperAllowed(part, field) ==
-  CASE part = "dc" /\ field \in DcNames \ {"signature"} -> {"Malformed", "CheckDcSignature"}
-    [] part = "dc" /\ field = "signature" -> {"CheckDcSignature"}
-    [] part = "dar" /\ field \in DarNames -> {"CheckResponseSignature"}
+  CASE C = "ele2" /\ part = "dc" /\ field \in DcNames -> {"Malformed", "CheckDcSignature"}
+    [] C = "ele2" /\ part = "dar" /\ field \in DarNames -> Rejections
+    [] C # "ele2" /\ part = "dc" /\ field \in DcNames \ {"signature"} -> {"Malformed", "CheckDcSignature"}
+    [] C # "ele2" /\ part = "dc" /\ field = "signature" -> {"CheckDcSignature"}
+    [] C # "ele2" /\ part = "dar" /\ field \in DarNames -> {"CheckResponseSignature"}
     [] OTHER -> {}
-TTamper == Is("Tamper", "open") /\ E.verdict \in TamperAllowed(E.part, E.field) /\ Keep /\ Adv("open")
-TDone == (Is("Done", "open") \/ Is("Done", "end")) /\ Keep /\ Adv("done")
-TNext == \/ TCase \/ TCreateRefused \/ TCreate \/ TDcLayout \/ TDcFields \/ TDcKeys \/ TSpsdkParse \/ TCheckDcSignature
-         \/ TCheckRotHash \/ TDac \/ TRespondRefused \/ TRespond \/ TDarLayout \/ TDarFields \/ TCheckResponseSignature
+TTamper == /\ l <= Len(T) /\ E.e = "Tamper" /\ Open /\ E.verdict \in TamperAllowed(E.part, E.field)
+           /\ Keep /\ l' = l + 1 /\ UNCHANGED <<tid, pos>>
+TDone == /\ l <= Len(T) /\ E.e = "Done" /\ (Open \/ pos = Refused) /\ Keep /\ l' = l + 1 /\ pos' = Finished /\ UNCHANGED tid
+TNext == \/ TCase \/ TSkip \/ TCreateRefused \/ TCreate \/ TDcLayout \/ TDcFields \/ TDcKeys \/ TSpsdkParse \/ TCheckDcSignature
+         \/ TCheckRotHash \/ TDac \/ TRespondRefused \/ TRespond \/ TDarLayout \/ TDarFields \/ TCheckResponseSignature \/ TDeliver
          \/ TAttempt \/ TTamper \/ TDone
 Constr == IF TLCGet(tid) < l THEN TLCSet(tid, l) ELSE TRUE
 Post == \A i \in 1..Len(Traces) :
